@@ -53,6 +53,12 @@ class AccfgGen:
         self.n += 1
         return f"%{p}{self.n}"
 
+    def pick(self, scope):
+        # bias towards recently defined values (loop results, pure chains) when the profile asks for it
+        if self.p.get("recent_bias") and len(scope) > 3 and self.r.random() < self.p["recent_bias"]:
+            return self.r.choice(scope[-2:])
+        return self.r.choice(scope)
+
     def stmts(self, k, scope, depth, inloop):
         out = []
         for _ in range(k):
@@ -70,7 +76,7 @@ class AccfgGen:
         self.count += 1
         if k == "sl":
             a = r.randrange(p["n_acc"])
-            st = {"k": "sl", "acc": a, "vals": [r.choice(scope) for _ in range(p["n_fields"][a])], "gap": []}
+            st = {"k": "sl", "acc": a, "vals": [self.pick(scope) for _ in range(p["n_fields"][a])], "gap": []}
             if p.get("n_launch"):
                 st["lvals"] = [r.choice(p["launch_pool"]) for _ in range(p["n_launch"][a])]
             if p["gap"] and r.random() < 0.4:
@@ -91,6 +97,18 @@ class AccfgGen:
                 node["ub"] = r.choice(["%n0", "%n1", "%n2"])
                 node["step"] = r.choice(["%c1", "%c1", "%c2", "%t0"]) if p["lb_step"] else "%c1"
             inner = scope + [ic]
+            if p.get("pure_loop") and r.random() < p["pure_loop"]:
+                # a side-effect free loop computing a loop-carried value from values of the enclosing scope:
+                # its result can feed a setup, the whole scf.for is then part of the setup's input chain
+                arg = self.fresh("lc")
+                node["carry"].append([arg, r.choice(scope), None])
+                inner = inner + [arg]
+                node["body"] = [self.simple("pure", inner) for _ in range(r.randint(1, 2))]
+                node["carry"][0][2] = node["body"][-1]["name"]
+                res = self.fresh("fr")
+                node["res"].append(res)
+                scope.append(res)
+                return node
             if p["carry"] and r.random() < 0.6:
                 arg = self.fresh("lc")
                 node["carry"].append([arg, r.choice(scope), None])
